@@ -276,9 +276,8 @@ func referrerSplit(inBytes []byte, limit int64) ([][]byte, error) {
 }
 
 // referrerAdd adds a new referrer entry to a given subject.
+// The caller must hold referrerMu.
 func (s *Server) referrerAdd(repo store.Repo, subject digest.Digest, desc types.Descriptor) error {
-	s.referrerMu.Lock()
-	defer s.referrerMu.Unlock()
 	index, err := repo.IndexGet()
 	if err != nil {
 		return err
@@ -353,9 +352,8 @@ func (s *Server) referrerAdd(repo store.Repo, subject digest.Digest, desc types.
 }
 
 // referrerDelete removes a referrer entry from a subject.
+// The caller must hold referrerMu.
 func (s *Server) referrerDelete(repo store.Repo, subject digest.Digest, desc types.Descriptor) error {
-	s.referrerMu.Lock()
-	defer s.referrerMu.Unlock()
 	// get the index.json
 	index, err := repo.IndexGet()
 	if err != nil {
